@@ -235,6 +235,12 @@ def build(d, torch):
 
     g = torch.Generator().manual_seed(d['wseed'])
     m = SNNet().double()
+    # the architectural coefficients stay float32 as in real use (only the layers are float64 for exact integer arithmetic):
+    # float32 softmax ties between nearly equal coefficients must remain observable
+    for mod in m.modules():
+        if type(mod).__name__ == 'SuperNetCombiner':
+            mod.alpha.data = mod.alpha.data.float()
+            mod.theta_alpha = mod.alpha.data.clone()
     with torch.no_grad():
         for name, p in m.named_parameters():
             if name.endswith('sn_combiner.alpha'):
@@ -284,6 +290,42 @@ def gen_alpha(rng, n, winner=None, tie=False):
         other = rng.choice([i for i in range(n) if i != mx])
         a[other] = a[mx]
     return a
+
+
+def f32(x):
+    import struct
+    return struct.unpack('f', struct.pack('f', x))[0]
+
+
+def f32_up(x, n):
+    """the float32 n ulps above x (x != 0)"""
+    import struct
+    b = struct.unpack('i', struct.pack('f', x))[0]
+    b += n if x > 0 else -n
+    return struct.unpack('f', struct.pack('i', b))[0]
+
+
+NEAR_GAPS = ('1ulp', '2ulp', '4ulp', '1e-6')
+
+
+def gen_alpha_neartie(rng, k, gap, runner):
+    """float32 coefficients whose unique maximum is `gap` (1/2/4 ulps or 1e-6) above a runner-up that sits at an
+    EARLIER (runner='earlier') or LATER index; every other coefficient is >= 0.2 below.  float32 softmax may round the
+    two to the same value: arg-max of the softmax is then the first of them, arg-max of the raw coefficients is not."""
+    base = f32(rng.choice([0.3, 0.7, 1.25, 0.05, 2.5, -0.3, -1.5, 0.1]))
+    top = f32_up(base, int(gap[0])) if gap.endswith('ulp') else f32(base + 1e-6)
+    assert top > base
+    if k < 2:
+        return [top], 0
+    if runner == 'earlier':
+        w = rng.randrange(1, k)
+        r = rng.randrange(0, w)
+    else:
+        w = rng.randrange(0, k - 1)
+        r = rng.randrange(w + 1, k)
+    a = [f32(base - 0.2 - rng.randrange(0, 32) / 16.0) for _ in range(k)]
+    a[w], a[r] = top, base
+    return a, w
 
 
 def graph_sequence(gm, d):
